@@ -284,7 +284,9 @@ struct Gen
             literalPass();
         // a third of the runs of the families whose senders may be hostile or foreign: frames derived from the comparison
         // operands of the decode calls (world.cpp, deriveFromComparisons; asan variant)
-        if ((plan.prop == "C02" || plan.prop == "C04" || plan.prop == "C15" || plan.prop == "C17" || plan.prop == "C18") && rng.chance(1, 3))
+        if ((plan.prop == "C02" || plan.prop == "C04" || plan.prop == "C15" || plan.prop == "C17" || plan.prop == "C18" || plan.prop == "C01" || plan.prop == "C07" ||
+             plan.prop == "C08" || plan.prop == "C09" || plan.prop == "C10") &&
+            rng.chance(1, 3) && plan.cfgGet("wraprun", 0) == 0)
             cfg().set("cmpfb", 1);
         lifePass();
         std::stable_sort(plan.items.begin(), plan.items.end(), [](const Item& a, const Item& b) {
